@@ -82,7 +82,7 @@ REPLAY = {'replace': replay}
 def specs(tier, seed):
     out = []
     cells = list(geo.CELLS)
-    pairs = ['shrink-shared', 'grow-shared', 'swap-element', 'empty', 'disjoint', 'identical', 'single-swap', 'sym-grow', 'collinear-swap']
+    pairs = ['shrink-shared', 'grow-shared', 'swap-element', 'empty', 'disjoint', 'identical', 'single-swap', 'sym-grow', 'collinear-swap', 'nudge-swap', 'grow-interleaved']
     for pi, pair in enumerate(pairs):
         for ci, cell in enumerate(cells):
             if tier == 'quick' and (pi + ci) % 2:
@@ -92,6 +92,10 @@ def specs(tier, seed):
                     if tier == 'quick' and ra and f not in (0.5, 1.0):
                         continue
                     out.append(dict(cell=cell, pair=pair, copies=4, seed=seed * 100 + pi * 7 + ci, f=f, replace_all=ra, rng=pi + ci))
+    # a single occurrence (and none): the fraction still decides how many are replaced (round(f * 1) = 0 for f < 0.5)
+    for pi, pair in enumerate(['swap-element', 'grow-shared', 'shrink-shared']):
+        for f in (0.0, 0.25, 0.49, 0.5, 0.75):
+            out.append(dict(cell=cells[pi % len(cells)], pair=pair, copies=1, seed=seed * 100 + 85 + pi, f=f, replace_all=False, rng=pi))
     # replacement patterns that carry terms and extra (CIF-style) columns the structure lacks
     for pi, pair in enumerate(['grow-shared', 'swap-element', 'disjoint']):
         for f in (0.5, 1.0):
